@@ -34,6 +34,16 @@ STRUCT_DECL = '#[derive(Serialize, Deserialize)]\npub struct HOLE_a { pub v: i32
 ENUM_DECL = '#[derive(Serialize, Deserialize)]\npub enum HOLE_a { One, Two }\n'
 
 
+def role_of(chain):
+    """the part of a constructor chain that decides how a nested name is qualified: the outermost map/tuple
+    constructor (everything below it shares its fate), else the whole chain.  Keeps the keys of deeper chains
+    (thorough tier) equal to those of the depth-1 chain that already fails for the same reason."""
+    for c in chain:
+        if c.startswith(('tup', 'hmap', 'bmap')):
+            return c
+    return '+'.join(chain) or '-'
+
+
 class C02(C.PipelineCheck):
     id = 'C02'
     title = 'Generated modules are closed: every name resolves, none is declared twice'
@@ -176,14 +186,14 @@ class C02(C.PipelineCheck):
                     ty = S.rust_text(skeleton(chain, ('leaf', 'a')))
                     files['src/main.rs'] = project_src(site, ty, STRUCT_DECL if p['decl'] == 'struct' else ENUM_DECL)
                     e.cover('decl:' + p['decl'])
-                    tag = '%s:%s/%s' % (site, '+'.join(chain) or '-', p['decl'])
+                    tag = '%s:%s/%s' % (site, role_of(chain), p['decl'])
                 else:
                     src_name, tgt = (('Uuid', 'string'), ('DateTime<Utc>', 'string'), ('Decimal', 'number'))[e.choose(3)]
                     cfg['type_mappings'] = {src_name: tgt}
                     ty = S.rust_text(skeleton(chain, ('prim', src_name)))
                     files['src/main.rs'] = project_src(site, ty, '')
                     e.cover('mapped')
-                    tag = 'mapped:%s:%s' % (site, '+'.join(chain) or '-')
+                    tag = 'mapped:%s:%s' % (site, role_of(chain))
             elif kind == 'shared':
                 files['src/main.rs'] = (C.HEADER + '#[derive(Serialize, Deserialize)]\npub struct Item { pub id: i32, pub kind: Kind, pub inner: Option<Box2> }\n'
                                         '#[derive(Serialize, Deserialize)]\npub enum Kind { A, B }\n#[derive(Serialize, Deserialize)]\npub struct Box2 { pub items: Vec<Item> }\n' +
